@@ -256,13 +256,16 @@ std::string run_case(Ctx &cx, const Prepared &p, const Case &c, std::string &det
         data = &altered;
         break;
     case K_PAIR:
-        reader = c.reader;
         break;
     }
+    if (c.reader >= 0)
+        reader = c.reader; // a different (compatible or incompatible) field type does the loading
     size_t budget = 20 * (p.file.size() / (size_t)std::max(p.d.getbuf, 1) + 8);
     Outcome out = try_load(reader, *data, p.start, limit, p.d.getbuf, p.d.exc, thr, budget);
     ++cx.cases;
     cx.cnt.inc(std::string("cases.") + KIND_NAMES[c.kind]);
+    if (c.kind != K_PAIR && c.reader >= 0)
+        cx.cnt.inc("probe.fault_met_by_compatible_reader_of_another_type");
     std::string kn = KIND_NAMES[c.kind];
     const char *rid = g_stacks[reader].id;
     if (cx.under_valgrind) {
@@ -293,7 +296,46 @@ std::string run_case(Ctx &cx, const Prepared &p, const Case &c, std::string &det
     return "";
 }
 
+void enumerate_for(const Prepared &p, int kind, Rng &r, bool thorough, std::vector<Case> &cases);
+
+// Readers that must accept the unaltered dump: the writer's own type (-1) and every
+// type with the same on-disk signature (other interpolator, other float width, ...)
+// whose fault-free load of this dump succeeds.
+std::vector<int> accepting_readers(const Prepared &p, bool thorough)
+{
+    std::vector<int> v{-1};
+    std::string sig = format_signature(g_stacks[p.d.stack]);
+    for (int rdr = 0; rdr < g_nstacks; ++rdr) {
+        if (rdr == p.d.stack || !ops_of(rdr).has_io || !ops_of(rdr).has_core || g_stacks[rdr].device)
+            continue;
+        if (g_stacks[rdr].tier == 1 && !thorough)
+            continue;
+        if (format_signature(g_stacks[rdr]) != sig || std::strcmp(g_stacks[rdr].norm, g_stacks[p.d.stack].norm) != 0)
+            continue;
+        Outcome o = try_load(rdr, p.file, p.start, p.file.size(), p.d.getbuf, p.d.exc, 0, 0);
+        if (o.what == Outcome::RETURNED)
+            v.push_back(rdr);
+    }
+    return v;
+}
+
 void enumerate(const Prepared &p, int kind, Rng &r, bool thorough, std::vector<Case> &cases)
+{
+    if (kind == K_PAIR || kind == K_TEAR) {
+        enumerate_for(p, kind, r, thorough, cases);
+        return;
+    }
+    for (int rdr : accepting_readers(p, thorough)) {
+        std::vector<Case> one;
+        enumerate_for(p, kind, r, thorough, one);
+        for (auto &c : one) {
+            c.reader = rdr;
+            cases.push_back(c);
+        }
+    }
+}
+
+void enumerate_for(const Prepared &p, int kind, Rng &r, bool thorough, std::vector<Case> &cases)
 {
     const StackDesc &sd = g_stacks[p.d.stack];
     switch (kind) {
